@@ -370,11 +370,21 @@ Proof.
   unfold parse_enum_variant. cbn [v_attrs v_ident v_fields]. destruct (get_ident _ _ _ _); reflexivity.
 Qed.
 
-(* a const is accepted only when the visitor's first literal is an integer literal *)
-Theorem const_needs_int_literal attrs ident t e it :
-  parse_const uc tstr attrs ident t e = Ok it -> exists z, ce_first_lit e = Some (CInt (Some z)).
+(* a const is accepted only when its initialiser is an integer literal, possibly parenthesised / negated *)
+Lemma const_expr_ok_is_int e z : parse_const_expr e = Ok z -> c03_const_is_int e = true.
 Proof.
-  unfold parse_const. destruct (ce_first_lit e) as [[[z|]|]|]; cbn [bind]; try discriminate. eauto.
+  revert z; induction e as [l|x IH|x IH|]; intros z; cbn [parse_const_expr c03_const_is_int].
+  - destruct l as [[v|]|]; [reflexivity|discriminate|discriminate].
+  - apply IH.
+  - destruct (parse_const_expr x) as [y| |]; cbn [bind]; try discriminate. intros _. now apply (IH y).
+  - discriminate.
+Qed.
+
+Theorem const_needs_int_literal attrs ident t e it :
+  parse_const uc tstr attrs ident t e = Ok it -> c03_const_is_int e = true.
+Proof.
+  unfold parse_const. destruct (parse_const_expr e) as [z| |] eqn:Ez; cbn [bind]; try discriminate.
+  intros _. now apply (const_expr_ok_is_int e z).
 Qed.
 
 (* ---------- C03: the visitor is a fold of collect_result over the annotated, accepted items ---------- *)
